@@ -23,7 +23,7 @@ from __future__ import annotations
 import dataclasses
 import sys
 import warnings
-from typing import Callable, MutableSet, TypeVar, overload
+from typing import Callable, Mapping, MutableSet, TypeVar, overload
 
 from typelib import constants
 
@@ -62,6 +62,10 @@ def slotted(  # noqa: C901
     """
 
     def _slots_setstate(self, state):
+        # The default state is `(instance dict, slots)`, but only the instance dict
+        #   when no slot has a value to save.
+        if isinstance(state, Mapping):
+            state = (state,)
         for param_dict in filter(None, state):
             for slot, value in param_dict.items():
                 object.__setattr__(self, slot, value)
